@@ -175,6 +175,34 @@ def extra_oracles(rng, tier):
                                 "client %r -> %r): %s, required %s" % (t0 / TPS, t1 / TPS, T, agent0, agent1,
                                                                       "accepted" if got else "refused (%d)" % status,
                                                                       "accepted" if want else "refused")))
+    # secrets and clients that are not text (numbers, booleans, bytes): what counts is the text they are written as -
+    # values written differently never verify each other's tokens, in whatever order they were used before
+    from poorwsgi.session import get_token, check_token
+    import poorwsgi.session as S
+    odd = [1, True, 1.0, 0, False, 0.0, None, "1", "True", "None", b"k", bytearray(b"k"), 10, "10"]
+    old_time = S.time
+    S.time = lambda: 1000.0
+    try:
+        for T in (None, 0, 300):
+            for a in odd:
+                for b in odd:
+                    n += 1
+                    try:
+                        tok = get_token(a, "agent", timeout=T)
+                        ok1 = check_token(tok, b, "agent", timeout=T)
+                        tok2 = get_token("s", a, timeout=T)
+                        ok2 = check_token(tok2, "s", b, timeout=T)
+                    except Exception as err:
+                        out.append(Violation("token-raises", "secret/client %r then %r, T=%s" % (a, b, T),
+                                             "get_token/check_token raised %r" % (err,)))
+                        continue
+                    same = "%s" % (a,) == "%s" % (b,)
+                    if (ok1, ok2) != (same, same):
+                        out.append(Violation("c16-nontext", "secret/client %r then %r, T=%s" % (a, b, T),
+                                             "tokens of %r verified under %r: %r (as secret, as client), written the same: %s"
+                                             % (a, b, (ok1, ok2), same)))
+    finally:
+        S.time = old_time
     return out, {"evaluations": n, "distinct_nontrivial": n, "e2e_outcomes": hit}
 
 
